@@ -26,6 +26,7 @@ extern MPT_STRUCT(node) *mpt_node_append(MPT_STRUCT(node) *old, const MPT_STRUCT
 	MPT_STRUCT(node) *conf;
 	MPT_INTERFACE(metatype) *mt;
 	const char *data;
+	int len;
 	
 	/* no save operation */
 	if (!(currop & 0xf)) {
@@ -41,7 +42,7 @@ extern MPT_STRUCT(node) *mpt_node_append(MPT_STRUCT(node) *old, const MPT_STRUCT
 	}
 	/* new node has identifier */
 	if (currop & MPT_PARSEFLAG(Section)) {
-		if (mpt_path_last(&path) < 0) {
+		if ((len = mpt_path_last(&path)) < 0) {
 			return 0;
 		}
 		data = path.base + path.off;
@@ -49,7 +50,7 @@ extern MPT_STRUCT(node) *mpt_node_append(MPT_STRUCT(node) *old, const MPT_STRUCT
 	/* data-only element */
 	else {
 		data = 0;
-		path.first = 0;
+		len = 0;
 	}
 	/* create data for node */
 	mt = 0;
@@ -57,14 +58,14 @@ extern MPT_STRUCT(node) *mpt_node_append(MPT_STRUCT(node) *old, const MPT_STRUCT
 		return 0;
 	}
 	/* create node with (optional) metadata segment */
-	if (!(conf = mpt_node_new(path.first + 1))) {
+	if (!(conf = mpt_node_new(len + 1))) {
 		if (mt) {
 			mt->_vptr->unref(mt);
 		}
 		return 0;
 	}
 	conf->_meta = mt;
-	if (path.first && !mpt_identifier_set(&conf->ident, data, path.first)) {
+	if (len && !mpt_identifier_set(&conf->ident, data, len)) {
 		mpt_node_destroy(conf);
 		return 0;
 	}
